@@ -74,7 +74,13 @@ pub fn gen_args_mode(r: &mut Rng, sig: &str, special: bool, tiny: bool) -> Vec<f
                 let n = cs[k + 1].to_digit(10).unwrap() as usize;
                 k += 1;
                 let len = match r.below(6) { 0 => 0, 1 => 1, _ => r.range(2, 9) as usize };
-                for _ in 0..len { out.extend(r.distinct(n)); }
+                // one list in three repeats points (next to each other and apart): list wrappers must convert every element
+                let repeats = r.below(3) == 0;
+                let mut prev: Vec<Vec<f64>> = Vec::new();
+                for _ in 0..len {
+                    let p = if repeats && !prev.is_empty() && r.coin() { if r.coin() { prev[prev.len() - 1].clone() } else { prev[r.below(prev.len() as u64) as usize].clone() } } else { r.distinct(n) };
+                    out.extend(p.iter()); prev.push(p);
+                }
             }
             _ => panic!("bad sig"),
         }
